@@ -467,6 +467,19 @@ def random_super_input(rng, no, ns, nf, ordered, rootsyn_p=0.0, consistent_p=0.8
     return d
 
 
+def many_family_input(rng, no, ns, nf, ordered=True):
+    """Few leaves, many families (one common order): bit masks beyond one byte."""
+    d = D.random_plain_input(rng, no, ns)
+    fams = [chr(ord("a") + i) for i in range(nf)]
+    d["leafsyn"] = {}
+    for l in sorted(d["leafmap"]):
+        keep = [f for f in fams if rng.random() < 0.6] or [rng.choice(fams)]
+        d["leafsyn"][l] = keep if ordered else sorted(keep)
+    first = sorted(d["leafmap"])[0]
+    d["leafsyn"][first] = sorted(set(d["leafsyn"][first]) | {fams[0], fams[-1]})   # the first and the last family do occur
+    return d
+
+
 def all_sequences(fams, ordered):
     out = []
     for k in range(1, len(fams) + 1):
